@@ -8,3 +8,12 @@ for d in sorted(glob.glob('/verif/seeded/C??-[C-F]')):
     kind = 'at first' if det.startswith('caught') else ('pre-strengthened' if det.startswith('strengthened') else 'after')
     rows.append("| %s | %s | %s: %s |" % (m['id'], m['breaks'].replace('|', '/'), kind, det.replace('|', '/')))
 print("\n".join(rows))
+
+# with --update: rewrite the table between the markers of DESIGN.md
+import sys
+if "--update" in sys.argv:
+    p = '/verif/DESIGN.md'
+    s = open(p).read()
+    a, b = s.index("<!-- SEEDTABLE-BEGIN -->"), s.index("<!-- SEEDTABLE-END -->")
+    s = s[:a] + "<!-- SEEDTABLE-BEGIN -->\n| seed | change | outcome |\n|------|--------|---------|\n" + "\n".join(rows) + "\n" + s[b:]
+    open(p, 'w').write(s)
